@@ -105,7 +105,7 @@ class Emitter:
             ax.append(f"(assert (= {s} (ite (>= {a} 0.0) {a} (- {a}))))")
         elif kind == "inv":
             a = self.need_v(args[0])
-            ax.append(f"(assert (= (* {s} {a}) 1.0))")
+            ax.append(f"(assert (=> (distinct {a} 0.0) (= (* {s} {a}) 1.0)))")
         elif kind == "ite":
             c = self.bool_term(args[0])
             a = self.need_v(args[1])
